@@ -149,6 +149,14 @@ Definition run_C19 (spec : bool) (head : sexp) (args : list sexp) : option sexp 
         end
     | _ => None
     end
+  else if sym_is "panic-free" head then
+    (* k threads released together and left to run freely.  A thread's observations do not depend on the other
+       threads (C19_interleaving_matches_alone: they are those of the thread run alone), so the answer is the list
+       of the single-thread answers. *)
+    match option_map_all dec_prog args with
+    | Some ps => Some (SList (sym "free" :: map (fun p => if spec then answer_spec p else answer_model p) ps))
+    | None => None
+    end
   else if sym_is "panic-2threads" head then
     match args with
     | [pa; pb; s] =>
